@@ -143,6 +143,7 @@ func H_C10_alias_shape() {
 		checkTensor("Full: mutating the dims argument afterwards changes nothing", x, orig, want)
 	case "TensorOf":
 		if r != 2 {
+			vrt.Reach("done")
 			return
 		}
 		d := make([][]float64, dims[0])
